@@ -635,8 +635,13 @@ func execHistClaims(res *Result, t *Trace, obj string, start *ClaimsDesc) {
 	lastOK := map[string]Op{}
 	accepted, rejected := 0, 0
 	var held []byte
+	// "every mandatory claim set successfully => validates" speaks about a claims-set whose
+	// claims all came through the setters; a decoded starting state that is itself invalid
+	// (say, a malformed optional claim no later call touches) is outside it.
+	startValid := true
 	if start != nil {
 		res.Probes["decoded_start_state"]++
+		startValid = safely(func() string { return ec(c.Validate()) }) == "ok"
 	}
 	for i, op := range t.Ops {
 		res.OpsRun++
@@ -765,7 +770,7 @@ func execHistClaims(res *Result, t *Trace, obj string, start *ClaimsDesc) {
 			}
 		}
 		// every mandatory claim set successfully => validates
-		if m := mandatoryClaims(obj); m != nil {
+		if m := mandatoryClaims(obj); m != nil && startValid {
 			all := true
 			for k := range m {
 				lo, ok := lastOK[k]
